@@ -109,7 +109,26 @@ def handleLenHint (j : Json) : Except String Verdict := do
            sig := if same then "" else if cls == "panic" then s!"C16/panic/len-hint-prealloc/{shape}" else s!"overflow/len-hint/{shape}/impl={cls}/honest={implCls honest}",
            why := s!"{shape} announcing {n} elements and sending none: {cls}, honest announcement {implCls honest}" }
 
+/-- `trace_len_hint` (known finding C16-trace-tuple-len-alloc): `from_samples` on records whose field announces `n`
+tuple elements and sends two.  `Tracer::ensure_tuple(len)` creates one field tracer per ANNOUNCED element, so an
+announcement of usize::MAX panics ("capacity overflow").  A panic is C16's to judge (spec), not a correspondence
+disagreement of the other properties reading this suite; an announcement of 3 legitimately yields a third (never seen)
+field, so only the outcome CLASS is compared with the honest announcement. -/
+def handleTraceLenHint (j : Json) : Except String Verdict := do
+  let n ← getNat j "n"
+  let shape ← getStr j "shape"
+  let impl ← getObj j "impl"
+  let honest ← getObj j "honest"
+  let cls := implCls impl
+  let panics := cls == "panic" || cls == "hang"
+  let same := cls == implCls honest
+  return { agree := same || panics, spec := [("C05", "na"), ("C16", if panics then "fail" else "pass")],
+           tags := [s!"trace-len-hint:{shape}:{if n > 1024 then "huge" else "small"}", s!"impl:{cls}"],
+           sig := if panics then s!"C16/panic/trace-len-hint-alloc/{shape}" else if same then "" else s!"overflow/trace-len-hint/{shape}/impl={cls}/honest={implCls honest}",
+           why := s!"from_samples, {shape} announcing {n} elements and sending two: {cls}, honest announcement {implCls honest}" }
+
 def handle (j : Json) : Except String Verdict := do
+  if (getStr j "kind").toOption == some "trace_len_hint" then return ← handleTraceLenHint j
   if (getStr j "kind").toOption == some "len_hint" then return ← handleLenHint j
   if (getStr j "kind").toOption == some "union_rows" then return ← handleUnionRows j
   if (getStr j "kind").toOption == some "view_bytes" then return ← handleViewBytes j
